@@ -1,25 +1,36 @@
 import CoapVerif.Model.Runner
 /-!
-# C18 / C09 — the housekeeping runner calls every live registration exactly once per period
+# C18 / C09 / C13 — the housekeeping runner calls every live registration exactly once per period
 
-"Closed at the first housekeeping tick after such a period" (C18) and the datagram server's completion of a closed peer's
-shutdown on its next sweep (C09) presuppose that the runner which drives the ticks (`pkg/runner/periodic` when shared
-through `options.WithPeriodicRunner`, the default goroutine-per-registration runner otherwise) calls every registered
-function once per period, and drops a registration only after it has answered "no".  Model: `Model/Runner.lean`; tie X:
-`harness/c18` `TestC18Runner` drives the real runners under synctest with register / finish / tick histories.
+"Closed at the first housekeeping tick after such a period" (C18), the datagram server's completion of a closed peer's
+shutdown on its next sweep (C09) and the expiry sweeps of every table (C13) presuppose that the runner which drives the
+ticks (`pkg/runner/periodic` when shared through `options.WithPeriodicRunner`, the default goroutine-per-registration
+runner otherwise) calls every registered function once per period, drops a registration only after it has answered "no",
+and keeps a registration that is made while a tick is running.  Model: `Model/Runner.lean`; tie X: `harness/c18`
+`TestC18Runner` drives the real runners under synctest with register / finish / nested-register / tick histories.
 -/
 namespace CoapVerif.Props.C18Runner
 open CoapVerif.Model.Runner
 
-/-! ### the housekeeping runner: every live registration is called exactly once per period -/
+/-- ids are distinct, among the live registrations and the ones about to be born -/
+structure Inv (s : List Reg) : Prop where
+  ids_nodup : (ids s).Nodup
+  nest_nodup : (nestIds s).Nodup
+  disjoint : ∀ a ∈ ids s, a ∉ nestIds s
 
-/-- ids registered by an op sequence are fresh w.r.t. a state (what the harness does, and what the callers do: every
-    registration is a new closure) -/
-def FreshOps (s : List Reg) : List Op → Prop
+/-- what the callers guarantee: every registration is a new function (fresh id); a function is asked to register another
+    one only once per call -/
+def Fresh (s : List Reg) : Op → Prop
+  | .reg k => k ∉ ids s ∧ k ∉ nestIds s
+  | .nest k j => j ∉ ids s ∧ j ∉ nestIds s ∧ ∀ r ∈ s, r.id = k → r.nest = none
+  | .fin _ => True
+  | .tick => True
+
+def FreshOps (b : Bool) (s : List Reg) : List Op → Prop
   | [] => True
-  | .reg k :: r => k ∉ ids s ∧ FreshOps (s ++ [{ id := k }]) r
-  | .fin k :: r => FreshOps (s.map (fun x => if x.id = k then { x with finishing := true } else x)) r
-  | .tick :: r => FreshOps (s.filter (fun x => !x.finishing)) r
+  | o :: r => Fresh s o ∧ FreshOps b (step b s o).1 r
+
+/-! #### bookkeeping lemmas -/
 
 theorem ids_map_fin (s : List Reg) (k : Nat) :
     ids (s.map (fun x => if x.id = k then { x with finishing := true } else x)) = ids s := by
@@ -30,65 +41,221 @@ theorem ids_map_fin (s : List Reg) (k : Nat) :
     rw [ih]
     by_cases h : a.id = k <;> simp [h]
 
-theorem ids_filter_sub (s : List Reg) (p : Reg → Bool) : ∀ k, k ∈ ids (s.filter p) → k ∈ ids s := by
-  intro k hk
-  simp only [ids, List.mem_map, List.mem_filter] at hk ⊢
-  obtain ⟨a, ⟨ha, _⟩, rfl⟩ := hk
-  exact ⟨a, ha, rfl⟩
-
-theorem nodup_filter (s : List Reg) (p : Reg → Bool) (h : (ids s).Nodup) : (ids (s.filter p)).Nodup := by
+theorem nestIds_map_fin (s : List Reg) (k : Nat) :
+    nestIds (s.map (fun x => if x.id = k then { x with finishing := true } else x)) = nestIds s := by
   induction s with
-  | nil => simpa [ids]
+  | nil => rfl
+  | cons a r ih =>
+    simp only [nestIds, List.map_cons, List.filterMap_cons] at ih ⊢
+    rw [ih]
+    by_cases h : a.id = k <;> simp [h]
+
+theorem ids_map_nest (s : List Reg) (k j : Nat) :
+    ids (s.map (fun x => if x.id = k then { x with nest := some j } else x)) = ids s := by
+  induction s with
+  | nil => rfl
+  | cons a r ih =>
+    simp only [ids, List.map_cons] at ih ⊢
+    rw [ih]
+    by_cases h : a.id = k <;> simp [h]
+
+theorem map_nest_of_not_mem (s : List Reg) (k j : Nat) (h : k ∉ ids s) :
+    s.map (fun x => if x.id = k then { x with nest := some j } else x) = s := by
+  induction s with
+  | nil => rfl
+  | cons a r ih =>
+    simp only [ids, List.map_cons, List.mem_cons, not_or] at h
+    have h1 : ¬ a.id = k := fun e => h.1 e.symm
+    simp only [List.map_cons, h1, if_false]
+    rw [ih (by simpa [ids] using h.2)]
+
+theorem mem_nestIds_map_nest (s : List Reg) (k j a : Nat)
+    (h : a ∈ nestIds (s.map (fun x => if x.id = k then { x with nest := some j } else x))) : a ∈ nestIds s ∨ a = j := by
+  induction s with
+  | nil => simp [nestIds] at h
+  | cons x r ih =>
+    simp only [nestIds, List.map_cons, List.filterMap_cons] at h ih ⊢
+    by_cases hx : x.id = k
+    · simp only [hx, if_true] at h
+      rcases List.mem_cons.mp h with h | h
+      · exact Or.inr h
+      · rcases ih h with h | h
+        · left; cases hn : x.nest <;> simp [hn, h]
+        · exact Or.inr h
+    · simp only [hx, if_false] at h
+      cases hn : x.nest with
+      | none =>
+        simp only [hn] at h ⊢
+        exact ih h
+      | some v =>
+        simp only [hn] at h ⊢
+        rcases List.mem_cons.mp h with h | h
+        · left; exact List.mem_cons.mpr (Or.inl h)
+        · rcases ih h with h | h
+          · left; exact List.mem_cons.mpr (Or.inr h)
+          · exact Or.inr h
+
+theorem nestIds_map_nest_nodup (s : List Reg) (k j : Nat) (hi : (ids s).Nodup) (hn : (nestIds s).Nodup)
+    (hj : j ∉ nestIds s) (hk : ∀ r ∈ s, r.id = k → r.nest = none) :
+    (nestIds (s.map (fun x => if x.id = k then { x with nest := some j } else x))).Nodup := by
+  induction s with
+  | nil => simp [nestIds]
+  | cons x r ih =>
+    simp only [ids, List.map_cons, List.nodup_cons] at hi
+    have hkr : ∀ y ∈ r, y.id = k → y.nest = none := fun y hy => hk y (List.mem_cons.mpr (Or.inr hy))
+    by_cases hx : x.id = k
+    · have hxn : x.nest = none := hk x (List.mem_cons.mpr (Or.inl rfl)) hx
+      have hnot : k ∉ ids r := by rw [← hx]; exact hi.1
+      have hrn : (nestIds r).Nodup := by simpa [nestIds, hxn] using hn
+      have hjr : j ∉ nestIds r := by simpa [nestIds, hxn] using hj
+      simp only [List.map_cons, hx, if_true]
+      rw [map_nest_of_not_mem r k j hnot]
+      simp only [nestIds, List.filterMap_cons]
+      exact List.nodup_cons.mpr ⟨by simpa [nestIds] using hjr, by simpa [nestIds] using hrn⟩
+    · simp only [List.map_cons, hx, if_false]
+      cases hxn : x.nest with
+      | none =>
+        have hrn : (nestIds r).Nodup := by simpa [nestIds, hxn] using hn
+        have hjr : j ∉ nestIds r := by simpa [nestIds, hxn] using hj
+        have := ih (by simpa [ids] using hi.2) hrn hjr hkr
+        simpa [nestIds, hxn] using this
+      | some v =>
+        have hn' : v ∉ nestIds r ∧ (nestIds r).Nodup := by simpa [nestIds, hxn] using hn
+        have hj' : j ≠ v ∧ j ∉ nestIds r := by simpa [nestIds, hxn] using hj
+        have := ih (by simpa [ids] using hi.2) hn'.2 hj'.2 hkr
+        simp only [nestIds, List.filterMap_cons, hxn]
+        refine List.nodup_cons.mpr ⟨?_, by simpa [nestIds] using this⟩
+        intro hm
+        rcases mem_nestIds_map_nest r k j v (by simpa [nestIds] using hm) with h | h
+        · exact hn'.1 h
+        · exact hj'.1 h.symm
+
+theorem ids_survivors_sub (s : List Reg) : ∀ k, k ∈ ids (survivors s) → k ∈ ids s := by
+  intro k hk
+  simp only [ids, survivors, List.mem_map, List.mem_filter] at hk ⊢
+  obtain ⟨a, ⟨b, ⟨hb, _⟩, rfl⟩, rfl⟩ := hk
+  exact ⟨b, hb, rfl⟩
+
+theorem ids_survivors_nodup (s : List Reg) (h : (ids s).Nodup) : (ids (survivors s)).Nodup := by
+  induction s with
+  | nil => simp [ids, survivors]
   | cons a r ih =>
     simp only [ids, List.map_cons, List.nodup_cons] at h
-    by_cases hp : p a = true
-    · simp only [ids, List.filter_cons, hp, if_true, List.map_cons, List.nodup_cons]
-      refine ⟨fun hm => h.1 ?_, ih h.2⟩
-      exact ids_filter_sub r p _ hm
-    · simp only [ids, List.filter_cons, hp]
-      exact ih h.2
+    by_cases hp : a.finishing = true
+    · have : survivors (a :: r) = survivors r := by simp [survivors, hp]
+      rw [this]; exact ih h.2
+    · have hp' : a.finishing = false := by simpa using hp
+      have : survivors (a :: r) = { a with nest := none } :: survivors r := by simp [survivors, hp']
+      rw [this]
+      simp only [ids, List.map_cons, List.nodup_cons]
+      exact ⟨fun hm => h.1 (ids_survivors_sub r _ hm), ih h.2⟩
 
-/-- One step keeps the ids of the live registrations distinct (fresh registrations). -/
-theorem step_nodup (b : Bool) (s : List Reg) (o : Op) (h : (ids s).Nodup) (hf : FreshOps s [o]) :
-    (ids (step b s o).1).Nodup := by
+theorem nestIds_survivors (s : List Reg) : nestIds (survivors s) = [] := by
+  induction s with
+  | nil => rfl
+  | cons a r ih =>
+    by_cases hp : a.finishing = true
+    · have : survivors (a :: r) = survivors r := by simp [survivors, hp]
+      rw [this]; exact ih
+    · have hp' : a.finishing = false := by simpa using hp
+      have : survivors (a :: r) = { a with nest := none } :: survivors r := by simp [survivors, hp']
+      rw [this]
+      simpa [nestIds] using ih
+
+theorem nestIds_born (l : List Nat) : nestIds (l.map (fun j => ({ id := j } : Reg))) = [] := by
+  induction l with
+  | nil => rfl
+  | cons a r ih => simpa [nestIds] using ih
+
+theorem ids_born (l : List Nat) : ids (l.map (fun j => ({ id := j } : Reg))) = l := by
+  induction l with
+  | nil => rfl
+  | cons a r ih => simp only [ids, List.map_cons, List.map_map] at ih ⊢; rw [ih]
+
+theorem nestIds_append (a b : List Reg) : nestIds (a ++ b) = nestIds a ++ nestIds b := by
+  simp [nestIds, List.filterMap_append]
+
+theorem ids_append (a b : List Reg) : ids (a ++ b) = ids a ++ ids b := by
+  simp [ids]
+
+/-! #### the invariant -/
+
+theorem step_inv (b : Bool) (s : List Reg) (o : Op) (h : Inv s) (hf : Fresh s o) : Inv (step b s o).1 := by
   cases o with
   | reg k =>
-    simp only [step, ids, List.map_append, List.map_cons, List.map_nil]
-    rw [List.nodup_append]
-    refine ⟨h, by simp, ?_⟩
-    intro a ha b' hb'
-    simp at hb'
-    subst hb'
-    intro hab; subst hab
-    exact hf.1 ha
-  | fin k => simpa [step, ids_map_fin] using h
-  | tick => exact nodup_filter s _ h
+    have hk : k ∉ ids s ∧ k ∉ nestIds s := hf
+    refine ⟨?_, ?_, ?_⟩
+    · simp only [step, ids_append]
+      rw [List.nodup_append]
+      refine ⟨h.ids_nodup, by simp [ids], ?_⟩
+      intro a ha c hc
+      simp [ids] at hc
+      subst hc
+      intro e; subst e; exact hk.1 ha
+    · simpa [step, nestIds_append, nestIds] using h.nest_nodup
+    · intro a ha
+      simp only [step, ids_append, List.mem_append] at ha
+      simp only [step, nestIds_append]
+      have hn : nestIds [({ id := k } : Reg)] = [] := rfl
+      rw [hn, List.append_nil]
+      rcases ha with ha | ha
+      · exact h.disjoint a ha
+      · simp [ids] at ha; subst ha; exact hk.2
+  | fin k =>
+    exact ⟨by simpa [step, ids_map_fin] using h.ids_nodup, by simpa [step, nestIds_map_fin] using h.nest_nodup,
+           by simpa [step, ids_map_fin, nestIds_map_fin] using h.disjoint⟩
+  | nest k j =>
+    have hj : j ∉ ids s ∧ j ∉ nestIds s ∧ ∀ r ∈ s, r.id = k → r.nest = none := hf
+    refine ⟨by simpa [step, ids_map_nest] using h.ids_nodup,
+            nestIds_map_nest_nodup s k j h.ids_nodup h.nest_nodup hj.2.1 hj.2.2, ?_⟩
+    intro a ha
+    simp only [step, ids_map_nest] at ha
+    simp only [step]
+    intro hm
+    rcases mem_nestIds_map_nest s k j a hm with hm | hm
+    · exact h.disjoint a ha hm
+    · subst hm; exact hj.1 ha
+  | tick =>
+    refine ⟨?_, ?_, ?_⟩
+    · simp only [step, ids_append, ids_born]
+      rw [List.nodup_append]
+      refine ⟨ids_survivors_nodup s h.ids_nodup, h.nest_nodup, ?_⟩
+      intro a ha c hc e
+      subst e
+      exact h.disjoint a (ids_survivors_sub s a ha) hc
+    · simp [step, nestIds_append, nestIds_survivors, nestIds_born]
+    · intro a _
+      simp [step, nestIds_append, nestIds_survivors, nestIds_born]
 
-/-- **Every live registration is called exactly once per period**: the calls of a tick are exactly the ids of the live
-    registrations, without repetition - for every reachable state (any history of fresh registrations, finishes, ticks). -/
-theorem tick_calls_every_live_once (b : Bool) (ops : List Op) : ∀ (s : List Reg), (ids s).Nodup → FreshOps s ops →
-    let s' := (run b s ops).1
-    (step b s' .tick).2 = ids s' ∧ (ids s').Nodup := by
+theorem run_inv (b : Bool) (ops : List Op) : ∀ s, Inv s → FreshOps b s ops → Inv (run b s ops).1 := by
   induction ops with
-  | nil => intro s h _; exact ⟨rfl, h⟩
+  | nil => intro s h _; simpa [run] using h
   | cons o r ih =>
     intro s h hf
-    have h1 : (ids (step b s o).1).Nodup := by
-      apply step_nodup b s o h
-      cases o with
-      | reg k => exact ⟨hf.1, trivial⟩
-      | fin k => trivial
-      | tick => trivial
-    have hf1 : FreshOps (step b s o).1 r := by
-      cases o with
-      | reg k => exact hf.2
-      | fin k => exact hf
-      | tick => exact hf
-    have := ih (step b s o).1 h1 hf1
+    have := ih (step b s o).1 (step_inv b s o h hf.1) hf.2
     simpa [run] using this
 
-/-- A registration that was not told to finish survives every step: no other registration, finish or tick removes or
-    replaces it (C09-H: a later registration took the key of a live one). -/
+/-! #### the properties -/
+
+/-- **Every live registration is called exactly once per period**: in every reachable state (any history of fresh
+    registrations, finishes, nested registrations and ticks) the calls of a tick are exactly the ids of the live
+    registrations (plus, for the runner that calls at registration, the ones born in this tick), and no function is called
+    twice. -/
+theorem tick_calls_every_live_once (b : Bool) (ops : List Op) (s : List Reg) (h : Inv s) (hf : FreshOps b s ops) :
+    let s' := (run b s ops).1
+    (step b s' .tick).2 = ids s' ++ (if b then nestIds s' else []) ∧ (step b s' .tick).2.Nodup := by
+  have hi := run_inv b ops s h hf
+  refine ⟨rfl, ?_⟩
+  simp only [step]
+  cases b with
+  | false => simpa using hi.ids_nodup
+  | true =>
+    simp only [if_true]
+    rw [List.nodup_append]
+    exact ⟨hi.ids_nodup, hi.nest_nodup, fun a ha c hc e => hi.disjoint a ha (e ▸ hc)⟩
+
+/-- A registration that was not told to finish survives every step: no other registration, finish, nested registration or
+    tick removes or replaces it (seeded change C09-H: a later registration took the key of a live one). -/
 theorem live_survives (b : Bool) (s : List Reg) (o : Op) (x : Reg) (hx : x ∈ s) (hnf : x.finishing = false)
     (ho : o ≠ .fin x.id) : ∃ y ∈ (step b s o).1, y.id = x.id ∧ y.finishing = false := by
   cases o with
@@ -98,31 +265,75 @@ theorem live_survives (b : Bool) (s : List Reg) (o : Op) (x : Reg) (hx : x ∈ s
     refine ⟨x, ?_, rfl, hnf⟩
     simp only [step, List.mem_map]
     exact ⟨x, hx, by simp [hk]⟩
-  | tick => exact ⟨x, by simp [step, hx, hnf], rfl, hnf⟩
+  | nest k j =>
+    by_cases hk : x.id = k
+    · refine ⟨{ x with nest := some j }, ?_, rfl, hnf⟩
+      simp only [step, List.mem_map]
+      exact ⟨x, hx, by simp [hk]⟩
+    · refine ⟨x, ?_, rfl, hnf⟩
+      simp only [step, List.mem_map]
+      exact ⟨x, hx, by simp [hk]⟩
+  | tick =>
+    refine ⟨{ x with nest := none }, ?_, rfl, hnf⟩
+    simp only [step, survivors, List.mem_append, List.mem_map, List.mem_filter]
+    exact Or.inl ⟨x, ⟨hx, by simp [hnf]⟩, rfl⟩
+
+/-- A function registered while a tick is running is live afterwards (seeded change C13-G: the filtered list installed at
+    the end of a tick dropped it). -/
+theorem born_in_tick_is_live (b : Bool) (s : List Reg) (x : Reg) (j : Nat) (hx : x ∈ s) (hn : x.nest = some j) :
+    ∃ y ∈ (step b s .tick).1, y.id = j ∧ y.finishing = false := by
+  refine ⟨{ id := j }, ?_, rfl, rfl⟩
+  simp only [step, List.mem_append, List.mem_map]
+  right
+  exact ⟨j, by simp only [nestIds, List.mem_filterMap]; exact ⟨x, hx, hn⟩, rfl⟩
+
+theorem survivor_origin (t : List Reg) (k : Nat) (h : k ∈ ids (survivors t)) : ∃ z ∈ t, z.id = k ∧ z.finishing = false := by
+  simp only [ids, survivors, List.mem_map, List.mem_filter] at h
+  obtain ⟨y, ⟨z, ⟨hz, hf⟩, rfl⟩, rfl⟩ := h
+  exact ⟨z, hz, rfl, by simpa using hf⟩
 
 /-- A function that answered "no" is not called again. -/
-theorem finished_not_called_again (b : Bool) (s : List Reg) (k : Nat) :
+theorem finished_not_called_again (b : Bool) (s : List Reg) (k : Nat) (h : Inv s) (hk : k ∈ ids s) :
     k ∉ ids ((step b (step b s (.fin k)).1 .tick).1) := by
-  simp only [step, ids, List.mem_map, List.mem_filter, not_exists, not_and]
-  intro x hx hid
-  obtain ⟨⟨y, hy, rfl⟩, hfin⟩ := hx
-  by_cases hyk : y.id = k
-  · simp [hyk] at hfin
-  · simp [hyk] at hid
+  have hd : k ∉ nestIds s := h.disjoint k hk
+  simp only [step, ids_append, ids_born, nestIds_map_fin, List.mem_append, not_or]
+  refine ⟨?_, hd⟩
+  intro hm
+  obtain ⟨z, hz, hid, hfin⟩ := survivor_origin _ k hm
+  simp only [List.mem_map] at hz
+  obtain ⟨w, _, rfl⟩ := hz
+  by_cases hw : w.id = k
+  · simp [hw] at hfin
+  · simp [hw] at hid
 
 example : (run false [] [.reg 1, .reg 2, .tick, .fin 1, .tick, .reg 3, .tick]).2 = [[], [], [1, 2], [], [1, 2], [], [2, 3]] := by decide
 example : (run true [] [.reg 1, .tick, .fin 1, .tick, .tick]).2 = [[1], [1], [], [1], []] := by decide
-
+-- a function finishes and another one registers a third in the same tick: the third is called from the next tick on
+example : (run false [] [.reg 1, .reg 2, .fin 1, .nest 2 3, .tick, .tick]).2 = [[], [], [], [], [1, 2], [2, 3]] := by decide
+example : Inv [] := ⟨by simp [ids], by simp [nestIds], by simp [ids]⟩
 
 end CoapVerif.Props.C18Runner
 
 section Audit
 open CoapVerif.Props.C18Runner
 #print axioms ids_map_fin
-#print axioms ids_filter_sub
-#print axioms nodup_filter
-#print axioms step_nodup
+#print axioms nestIds_map_fin
+#print axioms ids_map_nest
+#print axioms map_nest_of_not_mem
+#print axioms mem_nestIds_map_nest
+#print axioms nestIds_map_nest_nodup
+#print axioms ids_survivors_sub
+#print axioms ids_survivors_nodup
+#print axioms nestIds_survivors
+#print axioms nestIds_born
+#print axioms ids_born
+#print axioms nestIds_append
+#print axioms ids_append
+#print axioms step_inv
+#print axioms run_inv
 #print axioms tick_calls_every_live_once
 #print axioms live_survives
+#print axioms born_in_tick_is_live
+#print axioms survivor_origin
 #print axioms finished_not_called_again
 end Audit
